@@ -11,6 +11,9 @@
 //	               step, handlers, and a later retry of the run built exactly as cmd/retry.go builds it)
 //	               are read back from probe files.  Every dyn case runs in a fresh child process of this
 //	               binary under a timeout (a step that never ends is reported as "timeout").
+//	mode "dyn" with "kill": "KILL"|"TERM" (runKilled): producer -> [consumers] -> blocker -> consumers; the real `start` process is
+//	               SIGKILLed (or SIGTERMed: control) from outside as soon as the history RECORDS the producer as finished and the
+//	               blocker runs; its step processes are killed too; then the real `retry --req=<id>` in a fresh process.
 //	--probe <pos> <dir> : internal; the consumer-position probe: dumps its environment to a file.
 package main
 
@@ -57,6 +60,9 @@ type pcase struct {
 	PFails    int      `json:"pfails"`  // the producer's first PFails attempts print something else and exit 1 (retryPolicy limit = PFails)
 	Want      []string `json:"want"`    // hex names of the variables to report
 	TimeoutMs int      `json:"timeout"` // per run of the child
+	// dyn, "killed run, then retry" leg (runKilled): the `start` process is ended from outside once the producer is RECORDED finished
+	Kill      string `json:"kill"`      // "" = the ordinary legs; "KILL" = SIGKILL (no final record is written); "TERM" = SIGTERM (an orderly stop: control)
+	KillEarly bool   `json:"killearly"` // the blocker follows the producer directly (no consumer finishes in the first run)
 	Dir       string   `json:"dir"`     // (internal) scratch directory handed to the child
 }
 
@@ -398,7 +404,11 @@ func child() {
 				res["panic"] = fmt.Sprint(r)
 			}
 		}()
-		runDyn(c, res)
+		if c.Kill != "" {
+			runKilled(c, res)
+		} else {
+			runDyn(c, res)
+		}
 	}()
 	b, _ := json.Marshal(res)
 	fmt.Println(string(b))
@@ -585,4 +595,257 @@ func nodeStatuses(st *model.Status) map[string]string {
 		m[n.Step.Name] = n.Status.String()
 	}
 	return m
+}
+
+// ---------------------------------------------------------------- dyn: a run that is killed (or stopped) from outside, then retried
+
+// sessionPids: every process whose session id is sid (/proc/<pid>/stat, 6th field; the command name may hold anything).
+func sessionPids(sid int) []int {
+	var out []int
+	ents, _ := os.ReadDir("/proc")
+	for _, e := range ents {
+		pid, err := strconv.Atoi(e.Name())
+		if err != nil || pid <= 1 {
+			continue
+		}
+		b, err := os.ReadFile(filepath.Join("/proc", e.Name(), "stat"))
+		if err != nil {
+			continue
+		}
+		i := bytes.LastIndexByte(b, ')')
+		if i < 0 {
+			continue
+		}
+		f := strings.Fields(string(b[i+1:])) // state ppid pgrp session …
+		if len(f) >= 4 && f[3] == strconv.Itoa(sid) {
+			out = append(out, pid)
+		}
+	}
+	return out
+}
+
+// killSession SIGKILLs every process of the session (the agent and its step processes, which live in process groups of their own).
+func killSession(sid int) {
+	if sid <= 1 {
+		return
+	}
+	for round := 0; round < 3; round++ {
+		pids := sessionPids(sid)
+		if len(pids) == 0 {
+			return
+		}
+		for _, p := range pids {
+			_ = syscall.Kill(p, syscall.SIGKILL)
+		}
+		time.Sleep(10 * time.Millisecond)
+	}
+}
+
+func runKilled(c pcase, res map[string]any) {
+	tmp := c.Dir
+	self, _ := os.Executable()
+	dags, data, logs := filepath.Join(tmp, "dags"), filepath.Join(tmp, "data"), filepath.Join(tmp, "logs")
+	for _, d := range []string{dags, data, logs, filepath.Join(tmp, "suspend"), filepath.Join(tmp, "config")} {
+		_ = os.MkdirAll(d, 0o755)
+	}
+	outName := c.OutName
+	if outName == "" {
+		outName = "OUT"
+	}
+	_ = os.WriteFile(filepath.Join(tmp, "payload.bin"), []byte(unhex(c.Out)), 0o644)
+	// the producer: one line in `pcount` per execution (the marker the verdict counts), then the payload
+	_ = os.WriteFile(filepath.Join(tmp, "emit.sh"), []byte("d=\"$(dirname \"$0\")\"\necho x >> \"$d/pcount\"\ncat \"$d/payload.bin\"\n"), 0o755)
+	// the blocker: blocks in the first run only (until FLAG exists; at most 30 s); short sleeps, so nothing outlives its shell for long
+	_ = os.WriteFile(filepath.Join(tmp, "block.sh"), []byte("d=\"$(dirname \"$0\")\"\necho $$ >> \"$d/blocker.pids\"\ni=0\n"+
+		"while [ ! -f \"$d/FLAG\" ] && [ $i -lt 300 ]; do sleep 0.1; i=$((i+1)); done\n[ -f \"$d/FLAG\" ]\n"), 0o755)
+	pr := func(pos string) string { return yq(self + " --probe " + pos + " " + tmp) }
+	pa := func(pos string) string { return yq(self + " --probearg " + pos + " " + tmp + " $" + outName) }
+	var y strings.Builder
+	if c.Params != "" {
+		y.WriteString("params: " + yq(unhex(c.Params)) + "\n")
+	}
+	y.WriteString("steps:\n")
+	y.WriteString("  - name: producer\n    command: " + yq("sh "+filepath.Join(tmp, "emit.sh")) + "\n    output: " + outName + "\n")
+	blockDep := "producer"
+	if !c.KillEarly {
+		// consumers that finish in the first run (they are not re-executed by the retry)
+		y.WriteString("  - name: first\n    command: " + pr("first") + "\n    depends: [producer]\n")
+		y.WriteString("  - name: firstarg\n    command: " + pa("firstarg") + "\n    depends: [producer]\n")
+		blockDep = "first, firstarg"
+	}
+	y.WriteString("  - name: blocker\n    command: " + yq("sh "+filepath.Join(tmp, "block.sh")) + "\n    depends: [" + blockDep + "]\n")
+	y.WriteString("  - name: afterblock\n    command: " + pr("afterblock") + "\n    depends: [blocker]\n")
+	y.WriteString("  - name: afterblockarg\n    command: " + pa("afterblockarg") + "\n    depends: [blocker]\n")
+	y.WriteString("  - name: distant\n    command: " + pr("distant") + "\n    depends: [afterblock]\n")
+	y.WriteString("handlerOn:\n")
+	y.WriteString("  success:\n    command: " + pr("onsuccess") + "\n")
+	y.WriteString("  failure:\n    command: " + pr("onfailure") + "\n")
+	y.WriteString("  cancel:\n    command: " + pr("oncancel") + "\n")
+	y.WriteString("  exit:\n    command: " + pr("onexit") + "\n")
+	file := filepath.Join(dags, "c11dag.yaml")
+	_ = os.WriteFile(file, []byte(y.String()), 0o644)
+
+	cliEnv := append(os.Environ(),
+		"BLACKDAGGER_DAGS_DIR="+dags, "BLACKDAGGER_WORK_DIR="+tmp, "BLACKDAGGER_BASE_CONFIG="+filepath.Join(tmp, "config", "base.yaml"),
+		"BLACKDAGGER_LOG_DIR="+logs, "BLACKDAGGER_DATA_DIR="+data, "BLACKDAGGER_SUSPEND_FLAGS_DIR="+filepath.Join(tmp, "suspend"),
+		"BLACKDAGGER_ADMIN_LOG_DIR="+filepath.Join(logs, "admin"))
+	to := time.Duration(c.TimeoutMs) * time.Millisecond
+	if to <= 0 {
+		to = 30 * time.Second
+	}
+	var sessions []int
+	defer func() {
+		// nothing of this case is left behind, whatever happened
+		for _, sid := range sessions {
+			killSession(sid)
+		}
+		killByDir(tmp)
+		_ = os.Remove(dagSock(tmp))
+	}()
+	// the REAL command line in a process (and session) of its own
+	launch := func(phase string, args ...string) (*exec.Cmd, chan error, error) {
+		_ = os.WriteFile(filepath.Join(tmp, "phase"), []byte(phase), 0o644)
+		cm := exec.Command(self, append([]string{"--cli"}, args...)...)
+		cm.Env = cliEnv
+		cm.Dir = tmp
+		cm.SysProcAttr = &syscall.SysProcAttr{Setsid: true}
+		var eb bytes.Buffer
+		cm.Stderr = &eb
+		if err := cm.Start(); err != nil {
+			res[phase+"_cli_err"] = err.Error()
+			return nil, nil, err
+		}
+		sessions = append(sessions, cm.Process.Pid)
+		done := make(chan error, 1)
+		go func() { done <- cm.Wait() }()
+		return cm, done, nil
+	}
+	ds := dsclient.NewDataStores(dags, data, filepath.Join(tmp, "suspend"), dsclient.DataStoreOptions{})
+	finish := func() {
+		res["probes"] = collect(tmp, c.Want)
+		res["argprobes"] = collectArgs(tmp)
+		n := 0
+		if b, e := os.ReadFile(filepath.Join(tmp, "pcount")); e == nil {
+			n = bytes.Count(b, []byte("\n"))
+		}
+		res["producer_runs"] = n
+	}
+	nodeStatus := func(st *model.Status, name string) string {
+		for _, n := range st.Nodes {
+			if n.Step.Name == name {
+				return n.Status.String()
+			}
+		}
+		return ""
+	}
+
+	// ---- run 1: `start -q file`, ended from outside
+	args := []string{"start", "-q"}
+	if start := unhex(c.Start); start != "" {
+		args = append(args, "-p", start)
+	}
+	cm, done, err := launch("run1", append(args, file)...)
+	if err != nil {
+		res["harness_err"] = "start: " + err.Error()
+		return
+	}
+	// wait until the history (read through the real store) RECORDS the producer as finished and the blocker is running
+	deadline := time.Now().Add(to)
+	var st1 *model.Status
+	exited := false
+	for st1 == nil && time.Now().Before(deadline) && !exited {
+		select {
+		case e := <-done:
+			exited = true
+			res["run1_exit"] = fmt.Sprint(e)
+		case <-time.After(15 * time.Millisecond):
+		}
+		if b, e := os.ReadFile(filepath.Join(tmp, "blocker.pids")); e != nil || len(bytes.TrimSpace(b)) == 0 {
+			continue
+		}
+		rec := ds.HistoryStore().ReadStatusRecent(file, 1)
+		if len(rec) == 1 && nodeStatus(rec[0].Status, "producer") == "finished" {
+			st1 = rec[0].Status
+		}
+	}
+	if st1 == nil || exited {
+		if exited {
+			res["harness_err"] = fmt.Sprint("the run ended before it reached the blocker: ", res["run1_exit"])
+		} else {
+			res["timeout"], res["phase"] = true, "run1"
+		}
+		finish()
+		return
+	}
+	res["seen_before_kill_nodes"] = nodeStatuses(st1)
+	if c.Kill == "TERM" {
+		// an orderly stop: the agent passes the signal on to the steps, runs the handlers and writes its final record
+		_ = syscall.Kill(cm.Process.Pid, syscall.SIGTERM)
+		select {
+		case <-done:
+		case <-time.After(to):
+			res["timeout"], res["phase"] = true, "run1-stop"
+			finish()
+			return
+		}
+	} else {
+		// the agent dies on the spot (as under the OOM killer / a power loss); so do its steps
+		_ = syscall.Kill(cm.Process.Pid, syscall.SIGKILL)
+		<-done
+	}
+	killSession(cm.Process.Pid)
+	// the record the retry is going to read: the LAST one written, final or not
+	sf, ferr := ds.HistoryStore().FindByRequestID(file, st1.RequestID)
+	if ferr != nil {
+		res["find_err"] = ferr.Error()
+		finish()
+		return
+	}
+	last := sf.Status
+	res["run1_status"] = last.Status.String()
+	res["run1_nodes"] = nodeStatuses(last)
+	res["recorded_params"] = hx(last.Params)
+	// (diagnostic) does that record carry the captured variable?
+	carried := false
+	for _, n := range last.Nodes {
+		if n.Step.OutputVariables != nil {
+			if _, ok := n.Step.OutputVariables.Load(outName); ok {
+				carried = true
+			}
+		}
+	}
+	res["record_carries_output"] = carried
+
+	// ---- run 2: `retry --req=<id> file`, the blocker lets go
+	_ = os.WriteFile(filepath.Join(tmp, "FLAG"), nil, 0o644)
+	cm2, done2, err := launch("run2", "retry", "--req="+st1.RequestID, file)
+	if err != nil {
+		res["harness_err"] = "retry: " + err.Error()
+		finish()
+		return
+	}
+	select {
+	case e := <-done2:
+		if e != nil {
+			res["run2_exit"] = e.Error()
+		}
+	case <-time.After(to):
+		killSession(cm2.Process.Pid)
+		<-done2
+		res["timeout"], res["phase"] = true, "run2"
+		finish()
+		return
+	}
+	for _, s := range ds.HistoryStore().ReadStatusRecent(file, 5) {
+		if s.Status.RequestID != st1.RequestID {
+			res["run2_status"] = s.Status.Status.String()
+			res["run2_nodes"] = nodeStatuses(s.Status)
+			res["recorded_params2"] = hx(s.Status.Params)
+			break
+		}
+	}
+	if _, ok := res["run2_status"]; !ok {
+		res["load2_err"] = fmt.Sprint("retry left no record: ", res["run2_exit"])
+	}
+	finish()
 }
